@@ -22,8 +22,9 @@ def _nontrivial(recs):
                any(r.get("ev") == "Delete" and r.get("res") == "persisted" for r in recs)
     if k == "clean":    # a pass removed something while a file awaiting write-back was present
         return persisted_alive and bool(_gone(recs, "TTLPass") or _gone(recs, "PolicyPass") or _gone(recs, "Cleanup"))
-    if k == "force":    # the forced cleanup deleted something and met a persisted blob
-        return persisted_alive and any(r.get("ev") == "ForcePass" and r.get("deleted") for r in recs)
+    if k == "force":    # the forced cleanup deleted something, met a persisted blob, and some blob had >= 2 pending write-back tasks
+        return persisted_alive and any(r.get("ev") == "ForcePass" and r.get("deleted") for r in recs) and \
+               any(r.get("ev") == "SetTask" and len(r.get("ts", [])) >= 2 for r in recs)
     return False
 
 
@@ -42,7 +43,7 @@ PROP = dict(
          "ttlBasedCleanup (normal and with lower threshold), customPolicyBasedCleanup(cachedInAgentPolicy), shouldAggro "
          "(fake disk-usage probe) and cleanupManager.cleanup (real probe), file ages set with os.Chtimes and the LAT "
          "metadata API at the boundaries of TTI/TTL/1s/45min; 'force' POST /forcecleanup on a real origin Server + CAStore "
-         "with a scripted write-back manager. After every call the complete on-disk state and the map order are logged. "
+         "with a scripted write-back manager (0..3 pending tasks per blob, every ok/fail pattern, outcomes independent). After every call the complete on-disk state and the map order are logged. "
          "non-trivial = an eviction/pass really removed a file while a file awaiting write-back existed (fmap: plus a "
          "Delete answered ErrFilePersisted)",
     assumptions=[
